@@ -21,6 +21,8 @@ type FmtCase struct {
 	Params  map[string]string   `json:"params"`
 	Tags    map[string]string   `json:"tags"`
 	Prepend string              `json:"prepend"`
+	// in-ports whose file arrives as a stream: the IP is the out-IP of an upstream task with an {os:...} port
+	InStream map[string]bool `json:"in_stream"`
 }
 
 // FmtResult is what the library produced.
@@ -54,6 +56,14 @@ func newTaskFor(c *FmtCase) *sp.Task {
 	p.Prepend = c.Prepend
 	inIPs := map[string]*sp.FileIP{}
 	for port, path := range c.In {
+		if c.InStream[port] {
+			up := wf.NewProc("up_"+port, "gen > {os:s}")
+			up.SetOut("s", path)
+			ut := sp.NewTask(wf, up, up.Name(), up.CommandPattern, map[string]*sp.FileIP{}, up.PathFuncs, up.PortInfo, map[string]string{}, map[string]string{}, "", nil, 1)
+			inIPs[port] = ut.OutIPs["s"]
+			delete(wf.Procs(), up.Name())
+			continue
+		}
 		ip, err := sp.NewFileIP(path)
 		if err != nil {
 			fmt.Println("FMT-ERROR", c.ID, err)
